@@ -180,6 +180,8 @@ fn runtime_kind(s: &str) -> &str {
 }
 
 async fn one_stmt<S: Storage>(catalog: &RootCatalogRef, storage: &Arc<S>, stat: &Statistics, config: &Config, sql: &str, execute: bool) -> Value {
+    // panics caught (and reported as such) while handling the previous statement are not this statement's
+    let _ = take_panics();
     let stmts = match parse(sql) {
         Ok(s) => s,
         Err(e) => return json!({"parse_err": e.to_string()}),
@@ -224,6 +226,9 @@ async fn one_stmt<S: Storage>(catalog: &RootCatalogRef, storage: &Arc<S>, stat: 
         }
     };
     let r = std::panic::AssertUnwindSafe(exec.try_collect::<Vec<_>>()).catch_unwind().await;
+    // let the operator tasks that are still running finish (paused clock: the sleep returns once the runtime is
+    // otherwise idle), so that a late panic is attributed to this statement and not to the next one
+    tokio::time::sleep(std::time::Duration::from_millis(1)).await;
     let panics = take_panics();
     match r {
         Ok(Ok(chunks)) => {
@@ -243,7 +248,12 @@ async fn one_stmt<S: Storage>(catalog: &RootCatalogRef, storage: &Arc<S>, stat: 
                 out["task_panics"] = json!(panics);
             }
         }
-        Ok(Err(e)) => out["run_err"] = json!(e.to_string().lines().next().unwrap_or("").to_string()),
+        Ok(Err(e)) => {
+            out["run_err"] = json!(e.to_string().lines().next().unwrap_or("").to_string());
+            if !panics.is_empty() {
+                out["task_panics"] = json!(panics);
+            }
+        }
         Err(e) => out["run_panic"] = json!(panic_msg(e).lines().next().unwrap_or("").to_string()),
     }
     out
